@@ -42,10 +42,10 @@ theorem C14_de_refused_map {σ : Type} (rd : Rd σ) (st : Bool) (k : MapK) (kt v
 
 /-- fixed-size arrays, tuples and options of zero-sized types remain usable -/
 theorem C14_fixed_ok_array (st : Bool) (n : Nat) (t : Ty) (v : Val) (bs : Bytes)
-    (hp : plain t = true) (hw : WfTy t = true) (hv : HasTy (.array n t) v = true)
+    (hp : keysOk t = true) (hw : WfTy t = true) (hv : HasTy (.array n t) v = true)
     (he : toVec (.array n t) v = .ok bs) :
     fromSlice st (.array n t) bs = .ok (canon (.array n t) v) :=
-  C01_roundtrip_partial (.array n t) (by simpa [plain] using hp) (by simpa [WfTy] using hw) st v bs hv he
+  C01_roundtrip_partial (.array n t) (by simpa [keysOk] using hp) (by simpa [WfTy] using hw) st v bs hv he
 
 /-- run-time refusal and the zero-sized-sequence verdict of schema validation agree on
 `Vec<()>`, `Vec<[u8; 0]>`, `Vec<((), ())>`, `Vec<([(); 0], [(); 0])>`, `BTreeSet<()>` … -/
